@@ -38,8 +38,8 @@ SCHEMES_ALL = FAMILY + T_DIFFERENT + OTHERS
 RULE = ("one case = one dataset evaluated under every scheme of the tier's list and both values of use_bucket_id. "
         "quick: every dataset over R(3) with 1..2 rankings (canonical names) plus 400 seeded datasets n<=6, m<=5 "
         "cycling through 6 element-name kinds, 18 schemes (the four families, multiples x2 x1/4 x3 x1/8192, four "
-        "schemes proportional to a family on B only, six foreign schemes). thorough: R(3) m<=3, R(4) m<=2 (datasets of 3 "
-        "rankings and those over 4 names under a rotating window of 9 of the 36 schemes), 4000 samples under all 36 "
+        "schemes proportional to a family on B only, six foreign schemes). thorough: R(3) m<=3, R(4) m<=2 (datasets of "
+        "3 rankings and those over 4 names under a rotating window of 9 of the 36 schemes), 4000 samples under all 36 "
         "schemes. Bounds n<=6, m<=5 keep distinct rational means distinct as floats. Non-trivial = "
         "universe of >= 2 elements; distinct = distinct (dataset, scheme, variant).")
 SCOPE = {"quick": "all datasets n<=3 m<=2 (701) + 400 sampled n<=6 m<=5; 18 schemes; 2 variants",
